@@ -1,6 +1,8 @@
 import ChessVerif.Props.C12
+import ChessVerif.Props.C12.Basic
 open Chess.Props.C12
 #print axioms mate1_found
+#print axioms insufficient_not_mate
 #print axioms mate1_truthful
 #print axioms isMateMove_spec
 #print axioms Chess.Props.C12.white_mate1_best
